@@ -671,3 +671,51 @@ def bool_function(prog, path, atom, depth=3, max_paths=64, keep=None, result=Non
 def _short(e):
     from .mirlib import expr_str
     return expr_str(e)[:100]
+
+
+def concat_parts(e):
+    """the ordered pieces of a string built by concatenation - `format!("{}{}", a, b)`, a `String::new()/with_capacity()`
+    followed by `push_str`/`push`, `a + &b`, `[a, b].concat()` - as [("arg", expr) | ("lit", text)], or None"""
+    e = strip(e)
+    while e[0] == "call" and e[2] and re.search(r"hint::must_use$|Deref>::deref$|String::as_str$|ToOwned>::to_owned$|ToString>::to_string$|String as core::clone::Clone>::clone$|From<&str>>::from$|Into<.*>>::into$", e[1]) and len(e[2]) == 1:
+        inner = strip(e[2][0])
+        if inner[0] in ("param", "field", "const"):
+            break
+        e = inner
+    fp = format_parts(e)
+    if fp is not None:
+        pieces, args = fp
+        out, ai = [], 0
+        for pc in pieces:
+            if pc[0] == "lit":
+                out.append(("lit", pc[1]))
+            else:
+                if ai >= len(args):
+                    return None
+                out.append(("arg", strip(args[ai][1])))
+                ai += 1
+        return out
+    if e[0] == "mutated_by" and re.search(r"String::(push_str|push)$", e[1]) and len(e[2]) == 2:
+        head = concat_parts(e[2][0])
+        if head is None:
+            return None
+        v = strip(e[2][1])
+        while v[0] == "call" and v[2] and re.search(r"Deref>::deref$|String::as_str$|AsRef<str>>::as_ref$", v[1]):
+            v = strip(v[2][0])
+        if v[0] == "const" and v[1] == "str":
+            return head + [("lit", v[2])]
+        return head + [("arg", v)]
+    if e[0] == "call" and re.search(r"String::(new|with_capacity)$", e[1]):
+        return []
+    if e[0] == "call" and re.search(r"Add<&str>>::add$", e[1]) and len(e[2]) == 2:
+        a, b = concat_parts(e[2][0]), concat_parts(e[2][1])
+        if a is None:
+            a = [("arg", strip(e[2][0]))]
+        if b is None:
+            b = [("arg", strip(e[2][1]))]
+        return a + b
+    if e[0] in ("param", "field"):
+        return [("arg", e)]
+    if e[0] == "const" and e[1] == "str":
+        return [("lit", e[2])]
+    return None
